@@ -46,6 +46,7 @@ type HMsg struct {
 	Beh  string `json:"beh"` // return | gosched | sleep | hold
 	K    int    `json:"k,omitempty"`
 	Fill int    `json:"fill,omitempty"`
+	Ans  bool   `json:"ans,omitempty"` // the message is an answer (R bit clear): the client-side case
 }
 
 type CConn struct {
@@ -66,8 +67,12 @@ type Case struct {
 	Steps []Step  `json:"steps"` // afterwards: everything left is fed, then held handlers are released one by one
 }
 
-func abstractMsg(conn, seq, fill int) gen.Msg {
-	m := gen.Msg{Flags: 0x80, Code: 280, App: 0, HbH: uint32(conn + 1), E2E: uint32(seq), AVPs: []*gen.AVP{
+func abstractMsg(conn, seq, fill int, ans bool) gen.Msg {
+	flags := uint8(0x80)
+	if ans {
+		flags = 0
+	}
+	m := gen.Msg{Flags: flags, Code: 280, App: 0, HbH: uint32(conn + 1), E2E: uint32(seq), AVPs: []*gen.AVP{
 		{Code: codeConn, Flags: 0x40, V: gen.Val{T: gen.TUnsigned32, U: uint64(conn)}},
 		{Code: codeSeq, Flags: 0x40, V: gen.Val{T: gen.TUnsigned32, U: uint64(seq)}},
 	}}
@@ -85,7 +90,7 @@ func abstractMsg(conn, seq, fill int) gen.Msg {
 func layout(ci int, c *CConn) (frags [][]byte, ends []int) {
 	var stream []byte
 	for i, m := range c.Msgs {
-		a := abstractMsg(ci, i+1, m.Fill)
+		a := abstractMsg(ci, i+1, m.Fill, m.Ans)
 		stream = append(stream, a.RefBytes()...)
 		ends = append(ends, len(stream))
 	}
@@ -507,6 +512,7 @@ func genCase(t *rapid.T) Case {
 			if rapid.IntRange(0, 3).Draw(t, "filler") == 0 {
 				m.Fill = rapid.IntRange(1, 60).Draw(t, "fill")
 			}
+			m.Ans = rapid.IntRange(0, 2).Draw(t, "answer") == 0
 			cc.Msgs = append(cc.Msgs, m)
 		}
 		cc.Pattern = rapid.SampledFrom([]string{"one", "frags", "bytes", "one", "frags"}).Draw(t, "pattern")
